@@ -16,10 +16,14 @@ SPEC = {
     "trusted": ["harness/api_ipfsproxy/c12_rig_test.go: recording fake daemon (httptest) and recording Cluster/IPFSConnector/Consensus RPC services",
                 "net/http, httputil.ReverseProxy, gorilla/mux cleanPath, net/url, go-path, go-cid parsers: outcomes are inputs of the model",
                 "tools/gen/proxyroutes.go (syntactic translator of the hijack subrouter)"],
-    "level_text": "Theorems (Props/C12.v, all closed) over the Gallina transcription of the proxy (routing through the generated table "
+    "level_text": "24 theorems (Props/C12.v, all closed) over the Gallina transcription of the proxy (routing through the generated table "
                   "Gen/ProxyRoutes.v, the seven hijack handlers, the relay) for every request, parser outcome and RPC failure script; the "
                   "transcription is compared with the real ipfsproxy.Server between a recording daemon and recording RPC services on generated "
-                  "requests at every run, and the implementation's own observations are checked against the boolean form of the property",
+                  "requests at every run, and the implementation's own observations are checked against the boolean form of the property. "
+                  "Monitor theorems (Proofs/C12_Monitor.v): every run-time code (1, 10-15) is proved sound (its absence on an observation implies the "
+                  "Prop-level clause: relay identity, nothing mutating forwarded, error means no operation, success means exactly the requested "
+                  "operation), the model's own result raises no code for every request and environment, and an observation that agrees with the "
+                  "model raises no code",
     "level_note": "model tied to code by a regenerated routing table plus differential testing (generator-bounded); ReverseProxy headers not compared; "
                   "sharded adds and format=car are left to C13",
     "assumptions": ["parsers (net/url, go-path, cid, AddParamsFromQuery), mux cleanPath and the importer are abstract: their outcome is an input",
